@@ -665,7 +665,8 @@ _ed('set_sequence', lambda pt, a: setattr(a['self'], 'sequence', a['self'].seque
 # (helpers the package exports that take caller-owned lists / dictionaries; found by diffing the catalogue against
 #  dir(peptacular))
 
-op('get_losses', lambda S, W: ok({'sequence': V(S.pick(['PEPTSIDEK', 'SSTTEEDD', 'KRKR', 'A'])), 'losses': H(W, S, 'losses'),
+op('get_losses', lambda S, W: ok({'sequence': V(S.pick(['PEPTSIDEK', 'SSTTEEDD', 'KRKR', 'A'])),
+                                  'losses': H(W, S, 'losses') if S.coin(0.6) else V([]),
                                   'max_losses': V(S.pick([1, 2, 3]))}),
    lambda pt, a: pt.get_losses(a['sequence'], a['losses'], a['max_losses']), weight=0.5)
 op('merge_dicts', lambda S, W: ok({'d1': H(W, S, 'comp'), 'd2': H(W, S, 'comp')}),
